@@ -2,7 +2,7 @@
    Statements only; proofs are in theories/MetaJsonLemmas.v and theories/SchemaLemmas.v.
    schema_published / schema_exported / schema_model_raw are regenerated from the repository on
    every run (harness/translate_schema.py -> theories/Gen/Schema.v). *)
-From Geff Require Import Base Meta MetaLemmas Json Schema SchemaLemmas MetaJson MetaJsonLemmas.
+From Geff Require Import Base Meta MetaLemmas Json Schema SchemaLemmas MetaJson MetaJsonLemmas MetaDomainLemmas.
 From Geff.Gen Require Import Consts.
 From Geff.Gen Require Import Schema.
 Open Scope string_scope.
@@ -80,6 +80,34 @@ Theorem C08_domain_complete : forall gv v m,
 Proof. exact construct_in_domain. Qed.
 Print Assumptions C08_domain_complete.
 
+(* ---- the domain is closed under every operation of C07 (Meta.run: constructions / parses, top-level
+        assignments with their roll-back, copies, update_metadata_axes, create_or_update_metadata,
+        add_or_update_props_metadata): inv_md is a structural part, which every reachable object has,
+        and finiteness.  So "every valid metadata object" of this property reads: every object C07 can reach
+        that holds no inf / nan -- and the theorems above apply to all of them. *)
+Theorem C08_domain_split : forall m, inv_md m = true <-> inv_struct m = true /\ md_finite m = true.
+Proof. exact inv_md_iff. Qed.
+Print Assumptions C08_domain_split.
+
+Theorem C08_domain_reachable : forall gv ops m,
+  version_ok gv = true -> In m (run gv [] ops) -> md_finite m = true -> inv_md m = true.
+Proof. exact reachable_in_domain. Qed.
+Print Assumptions C08_domain_reachable.
+
+(* conversely every object of the domain is reachable (by one construction from its own dump) *)
+Theorem C08_domain_is_reachable : forall gv m, inv_md m = true -> In m (run gv [] [OConstruct (to_json m)]).
+Proof. exact domain_reachable. Qed.
+Print Assumptions C08_domain_is_reachable.
+
+(* the round trips and the schema verdict for every reachable finite object *)
+Theorem C08_reachable : forall gv ops m,
+  version_ok gv = true -> In m (run gv [] ops) -> md_finite m = true ->
+  of_json gv (to_json m) = Ok m /\ to_json_text m = to_json m /\
+  (forall st, md_read gv (md_write m st) = Ok m) /\
+  validates schema_published (wrap (to_json m)) = true.
+Proof. exact reachable_roundtrip. Qed.
+Print Assumptions C08_reachable.
+
 (* ---- why the finiteness guard: the statement for every constructible object is false on the faithful
         model (JSON text writes null for an infinite axis bound) -- outside the property's quantifier *)
 Definition C08_roundtrip_text_full : Prop :=
@@ -124,3 +152,15 @@ Proof. vm_compute. repeat split. Qed.
 (* the equivalence check is not the constant `true` either: dropping the adjustment is seen *)
 Example C08_nonvacuous_equiv : schema_equiv schema_published schema_model_raw = false.
 Proof. vm_compute. reflexivity. Qed.
+
+(* the closure theorem is not vacuous: an object built by an assignment, update_metadata_axes and
+   add_or_update_props_metadata (none of them a direct `construct` output) is in the domain *)
+Example C08_nonvacuous_reachable :
+  let ops := [OConstruct (to_json rich_md);
+              OAssign 0 FHints JNull;
+              OUpdateAxes 0 (mkAL (Some [JStr "t"; JStr "y"]) None (Some [JStr "time"; JStr "space"]) (Some [JFlt (Fin 512); JNull]) None None None None);
+              OAddProps 1 (JList [JObj [("identifier", JStr "lab"); ("dtype", JStr "<U5")]; JObj [("identifier", JStr "w"); ("dtype", JStr "f4")]]) (JStr "node")] in
+  List.length (run "1.3" [] ops) = 3%nat /\
+  forallb (fun m => inv_md m) (run "1.3" [] ops) = true /\
+  forallb md_finite (run "1.3" [] ops) = true.
+Proof. vm_compute. repeat split. Qed.
